@@ -154,4 +154,5 @@ def cmp_prove(prop, case, model, mat, F, variant, final):
 
 
 COMPARATORS["prove"] = cmp_prove
+COMPARATORS["prove_multi"] = cmp_prove
 ORACLES.setdefault("C07", set()).update({"reference_prover_accepted"})
